@@ -46,7 +46,7 @@ OWNED = {"Block": ("sources", "data_arrays", "data_frames", "tags", "multi_tags"
 
 
 def plan(tier, seed):
-    return [{"i": i, "files": 2 if tier == "quick" else 14, "copies": 12 if tier == "quick" else 16, "extra": 40} for i in range(NSHARDS)]
+    return [{"i": i, "files": 2 if tier == "quick" else 14, "copies": 10 if tier == "quick" else 16, "extra": 30} for i in range(NSHARDS)]
 
 
 # ------------------------------------------------------------------------------------------------------------
@@ -122,6 +122,8 @@ class Tree:
                 continue
             if isinstance(v, list) and v and v[0] in ("ref", "container", "dimlink"):
                 continue
+            if v is None:
+                continue        # an unset field and a further link that is not followed read the same here
             out[k] = v
         if isinstance(tgt, self.nix.DataArray):
             try:
@@ -244,7 +246,7 @@ def all_sections(f):
     return [s for s, _ in sections_with_parents(f)]
 
 
-def pick_case(nix, rng, kind, fa, fb):
+def pick_case(nix, rng, kind, fa, fb, children=True):
     """returns dict(src, dest_parent, dest_kind, dest_file, call(name, keep, children) -> copy, container(dest) ...)"""
     dest_choice = rng.choice(["same_parent", "other_parent", "other_file"])
     blocks_a = list(fa.blocks)
@@ -299,6 +301,9 @@ def pick_case(nix, rng, kind, fa, fb):
         secs = sections_with_parents(fa)
         if not secs:
             return None
+        if not children and rng.random() < 0.7:
+            # a non-recursive copy is only interesting for a source that has subsections to leave behind
+            secs = [x for x in secs if len(x[0].sections)] or secs
         src, src_parent = rng.choice(secs)
         df = fb if dest_choice == "other_file" else fa
         if kind == "section_to_file":
@@ -432,13 +437,13 @@ def is_uuid(s):
 
 def run_copy(ctx, nix, np, rng, fa, fb, kind, rep):
     from .. import snapshot
-    c = pick_case(nix, rng, kind, fa, fb)
+    children = True if not kind.startswith("section") else rng.random() < 0.55
+    c = pick_case(nix, rng, kind, fa, fb, children)
     if c is None:
         ctx.count("no_candidate")
         return
     src, df = c["src"], c["dest_file"]
     keep = rng.random() < 0.5
-    children = True if not kind.startswith("section") else rng.random() < 0.6
     existing = {x.name for x in c["cont"]()}
     want_new = rng.random() < 0.6
     name = None
@@ -454,8 +459,9 @@ def run_copy(ctx, nix, np, rng, fa, fb, kind, rep):
     ids_before = set(raw_ids(fa)) | set(raw_ids(fb))
     tag = "%s:%s:%s" % (kind, "keep" if keep else "fresh", c["dest"])
     ctx.count("source_handle_via:" + c.get("via", "container"))
-    pre_a, pre_b = snapshot.snapshot(nix, fa), snapshot.snapshot(nix, fb)
+    scan_a, scan_b = snapshot.rawscan(fa._h5file), snapshot.rawscan(fb._h5file)
     if expect_refusal:
+        pre_a, pre_b = snapshot.snapshot(nix, fa), snapshot.snapshot(nix, fb)
         raw_a = snapshot.raw_fingerprint(snapshot.rawscan(fa._h5file))[0]
         raw_b = snapshot.raw_fingerprint(snapshot.rawscan(fb._h5file))[0]
     try:
@@ -484,28 +490,39 @@ def run_copy(ctx, nix, np, rng, fa, fb, kind, rep):
         ctx.case((kind, keep, bool(name), c["dest"], children, "raised", sig_roles))
         return
     ctx.count("copies_made")
-    # ---- the copy must not change anything that existed before: the source, its file, and every bystander in the destination
-    post_a, post_b = snapshot.snapshot(nix, fa), snapshot.snapshot(nix, fb)
-    dest_key = "File:" if isinstance(c["dest_parent"], nix.File) else "%s:%s" % (type(c["dest_parent"]).__name__, c["dest_parent"].id)
-    cont_field = {"block": "blocks", "data_array": "data_arrays", "data_frame": "data_frames", "tag": "tags", "multi_tag": "multi_tags",
-                  "section_to_file": "sections", "section_to_section": "sections", "property": "props"}[kind]
-    for nm, pre, post, f in (("source_file", pre_a, post_a, fa), ("other_file", pre_b, post_b, fb)):
-        # an id that several objects of the file carry (kept-id copies, A8) makes the id-keyed snapshot ambiguous: not compared
-        ambiguous = {i for i, addrs in raw_ids(f).items() if len(addrs) > 1}
-        for x in snapshot.diff(pre, post, limit=60):
-            if x.get("change") == "appeared":
-                continue
-            if x["entity"].split(":", 1)[1] in ambiguous:
-                ctx.count("bystander_records_skipped_ambiguous_id")
-                continue
-            if f is df and x["entity"] == dest_key and x.get("field") in (cont_field, "__dictview__"):
-                continue
-            what = x.get("field") or x.get("change")
-            role = "destination_file" if f is df else nm
-            ctx.violation("copy_changed_existing_content:%s:%s:%s.%s" % (kind + ("" if children else ":shallow"), "keep" if keep else "fresh",
-                                                                         x["entity"].split(":")[0], what),
-                          dict(info, where=role, diff=x), rep)
-            break
+    # ---- the copy must not change anything that existed before: the source, its file, and every bystander in the destination.
+    # Observed on the raw HDF5 objects (by object address, so that ids shared by kept-id copies cannot blur it): every object that
+    # existed before the call still exists with the same attributes, data and link names; only the destination container (and,
+    # when the container did not exist yet, its parent) gains a link.
+    for nm, before, f in (("source_file", scan_a, fa), ("other_file", scan_b, fb)):
+        after = snapshot.rawscan(f._h5file)
+        role = "destination_file" if f is df else nm
+        grown = []
+        for addr, o in before["objects"].items():
+            n = after["objects"].get(addr)
+            what = None
+            if n is None:
+                what = "object_vanished"
+            elif o["attrs"] != n["attrs"]:
+                ch = sorted({k for k, _ in o["attrs"]} ^ {k for k, _ in n["attrs"]} | {k for (k, v), (k2, v2) in zip(o["attrs"], n["attrs"]) if k == k2 and v != v2})
+                what = "attribute_changed:" + (ch[0] if ch else "?")
+            elif o.get("data") != n.get("data"):
+                what = "data_changed"
+            elif sorted(o["paths"]) != sorted(n["paths"]):
+                what = "links_to_object_changed"
+            elif o.get("nlinks") != n.get("nlinks"):
+                if f is df and n.get("nlinks") == o.get("nlinks") + 1:
+                    grown.append(o["paths"][0])
+                    continue
+                what = "members_changed"
+            if what:
+                okind = "dataset" if o["kind"] == "dataset" else ("entity" if o.get("entity_id") else "container")
+                ctx.violation("copy_changed_existing_content:%s:%s:%s:%s" % (kind + ("" if children else ":shallow"), "keep" if keep else "fresh", okind, what),
+                              dict(info, where=role, object=o["paths"][:2], entity_id=o.get("entity_id")), rep)
+                break
+        if len(grown) > 2:
+            ctx.violation("copy_changed_existing_content:%s:%s:several_groups_gained_members" % (kind, "keep" if keep else "fresh"), dict(info, where=role, groups=grown[:5]), rep)
+        ctx.count("bystander_objects_compared", len(before["objects"]))
     ctx.count("bystander_checks")
     # ---- the returned handle ---------------------------------------------------------------------------------
     try:
